@@ -3,7 +3,7 @@ from vq.meta import _m
 _m(
     "C07",
     "exploration",
-    "Three kinds of case.  filter: ALL even sizes 4..256 x {ramp, shepp-logan, cosine, hamming, hann, None} are enumerated "
+    "Four strata.  filter: ALL even sizes 4..256 x {ramp, shepp-logan, cosine, hamming, hann, None} are enumerated "
     "(762 cases, every run).  radon (Hypothesis): square size N in 4..48 (parity drawn explicitly, small sizes favoured), 1..12 "
     "angles in [0,180] (0/90/180/45/135/1/89/91/179 mixed with arbitrary floats, repeats allowed) held in a float32 or float64 "
     "tensor, batch of 1..3 float32 images (Gaussian mixtures | sums of rectangles | white noise | 1-3 single-pixel impulses "
@@ -11,7 +11,13 @@ _m(
     "disc mask), plus a partner image and two coefficients for linearity.  iradon (Hypothesis): same N/angles/batch, filter in "
     "the six names, circle True (4 in 5) or False, float32 sinograms (white noise | scikit-image radon of a generated image | "
     "1-3 impulses incl. first/last/centre detector bins | all ones, the SIRT normalisation input), plus a partner sinogram "
-    "and coefficients.  A radon/iradon case is NON-TRIVIAL when N is even, or some angle is not in {0,90,180}, or some "
+    "and coefficients.  large problems (label large_problem): a fixed grid of (kind, N, angles A, batch B, filter, circle) rows - "
+    "quick 11 rows: iradon N 64..181, A 60..360, B 1..3 with B*out^2*A placed just below and just above 2^20, 2^22 and 2^24, every "
+    "filter name once, one circle=False row; radon N 96/128/181, A 120..360, B 1/3; thorough adds N up to 256, A up to 512, "
+    "products up to 2^25.5 (17 rows) - every row is judged 2x (quick) / 6x per worker (thorough) with Hypothesis-drawn contents "
+    "(noise | blocks | smooth images, noise | radon-of-image sinograms, evenly spaced angles with a drawn offset or a seeded random "
+    "angle set, float32/float64 theta); same oracle, batched == per-image and theta=0 clauses, no linearity.  "
+    "A radon/iradon case is NON-TRIVIAL when N is even, or some angle is not in {0,90,180}, or some "
     "image/sinogram is not (the radon of) a smooth image; a filter case is non-trivial when the filter is not None.  "
     "distinct = SHA-1 of the canonical JSON of the whole case.",
     [
@@ -20,13 +26,16 @@ _m(
         "transposed to the torch (angles, pixels) layout",
         "images are zero outside the disc (scikit-image's documented precondition for circle=True); images and sinograms are "
         "float32 (the only dtype the grid_sample pipeline accepts); theta is always passed explicitly (the theta=None defaults "
-        "are outside the quantified angle sets); output_size is left at its default; square images only",
+        "are outside the quantified angle sets); output_size is left at its default; square images only; sizes N <= 48 are explored "
+        "densely, 64 <= N <= 256 with up to 512 angles only on the large-problem grid; nothing is claimed beyond N = 256 or "
+        "B*out^2*A > 2^25.5",
         "tolerance = K * scale with scale an error model of the float32 pipeline: radon eps32*N^2*max|image| (N bilinear "
         "samples per bin, each displaced by the float32 rounding of a coordinate <= N), K=8; iradon eps32*(N+8)*max|sinogram| "
         "(float32 FFT of <= 256 points + interpolation at a float32 detector coordinate), K=32; filter eps32 absolute (values "
         "<= 1), K=32; batched vs per-image K=2 on the same scale (measured bitwise equal); linearity 2K with |a|max|x|+|b|max|y| "
         "as magnitude.  Largest error/scale measured on the corrected tree (8 x 30 000 targeted cases): radon 0.65, theta=0 "
-        "0.40, iradon 1.95, filter 2.23, linearity 0.39 -> >= 12x head-room; each run's largest ratios are in coverage.extra",
+        "0.40, iradon 1.95, filter 2.23, linearity 0.39 -> >= 12x head-room; on the large problems (408 cases) radon 0.17, "
+        "theta=0 0.10, iradon 0.06 with the same K; each run's largest ratios are in coverage.extra (suffix _large)",
         "reconstruction pixels whose detector coordinate comes within 1e-3 of an end of the reference's detector for some "
         "angle are not compared (np.interp jumps to 0 there, float32 and float64 may round to different sides); they are "
         "counted in classes['iradon:pixels_at_detector_end_not_compared'] and occur only for circle=False and for N=4",
